@@ -116,6 +116,36 @@ impl E57Writer {
             assert(finalized_stream(w0.stream(), w0.cursor(), w4.stream(), 1024 * w4.npages(), xml_bytes@));
         }
 //@endfn
+
+// the public entry point named by C15 / C16: `finalize()` = `finalize_customized_xml(Ok)`; the constructor passed as a function is
+// eta-expanded to the closure `|s| Ok(s)` (Verus has no specification for enum constructors used as Fn values)
+//@fn src/e57_writer.rs E57Writer finalize serves=C02,C15,C16 ret=r
+//@rw self\.finalize_customized_xml\(Ok\) ==> self.finalize_customized_xml(|s: String| -> (o: Result<String>) { Ok(s) })
+//@sig
+        requires old(self).writer.wf(),
+            old(self).writer.stream().len() >= 48, old(self).writer.cursor() >= 48,
+        ensures match r {
+            Ok(_) => ({
+                let w0 = old(self).writer; let w = final(self).writer;
+                &&& (exists|xml: Seq<u8>| #[trigger] finalized_stream(w0.stream(), w0.cursor(), w.stream(), w.dl(), xml))
+                // flushed: the device holds whole sealed pages whose payload is the logical stream (C11 flush contract)
+                &&& w.wf() && w.dl() == 1024 * (w.stream().len() as int / 1020)
+                &&& (forall|i: int| 0 <= i < w.stream().len() ==> w.writer.data@[phys(i)] == #[trigger] w.stream()[i])
+                // C16: success implies no device error was seen
+                &&& w.no_new_fault(&w0)
+            }),
+            Err(_) => true },
+            // C15 ordering: whatever the outcome, at most ONE device write of finalize carries a non-zero XML length, and at the moment
+            // that write is issued the device already holds every page of the finished file (all sections and the complete XML, every
+            // page sealed) with the placeholder header still in place
+            /*[C15]*/ old(self).writer.quiet() ==> final(self).writer.writer.dirty@ <= 1,
+            /*[C15]*/ (old(self).writer.quiet() && final(self).writer.writer.dirty@ == 1) ==>
+                exists|xml: Seq<u8>| #[trigger] complete_but_header(final(self).writer.writer.snap@, old(self).writer.stream(), old(self).writer.cursor(), xml),
+            // ... and that write only replaces page 0
+            /*[C15]*/ (r is Ok && old(self).writer.quiet() && final(self).writer.writer.dirty@ == 1) ==>
+                final(self).writer.writer.data@.len() == final(self).writer.writer.snap@.len()
+                && (forall|i: int| 1024 <= i < final(self).writer.writer.data@.len() ==> final(self).writer.writer.data@[i] == final(self).writer.writer.snap@[i]),
+//@endfn
 }
 proof fn lemma_unphys0() ensures unphys(0) == 0 { reveal(unphys); }
 /// C15: device image that holds the complete file except for the real header: every logical byte from 48 up to the end of the
